@@ -55,6 +55,15 @@ def isolated(a, d, meta, props, patch):
         shutil.rmtree(base, ignore_errors=True)
     out = {"seed": a.sid, "tier": a.tier, "verif_seed": a.seed, "isolated": True, "results": results,
            "detected": any(v["exit"] == 1 for v in results.values())}
+    rf = os.path.join(d, f"result.{a.tier}.json")
+    if a.props and os.path.exists(rf):  # a partial run refreshes the entries of the checks it ran
+        try:
+            merged = json.load(open(rf)).get("results", {})
+            merged.update(results)
+            out["results"] = results = dict(sorted(merged.items()))
+            out["detected"] = any(v["exit"] == 1 for v in results.values())
+        except ValueError:
+            pass
     if a.benign:
         out["silent"] = all(v["exit"] == 0 for v in results.values())
     with open(os.path.join(d, f"result.{a.tier}.json"), "w") as f:
